@@ -230,7 +230,7 @@ pub enum Evt {
     MtuUpdated { path_id: u64, mtu: u16, cause: String },
     DatagramDropped { reason: String, len: u16 },
     ActivePath { remote_port: u16, path_id: u64 },
-    PathCreated { path_id: u64 },
+    PathCreated { path_id: u64, remote_port: u16 },
     CidUpdated { local_consumer: bool, current: Vec<u8> },
     BbrState(&'static str),
     EndpointDatagramDropped { reason: String, len: u16 },
